@@ -42,6 +42,11 @@ def mdeco(f):
     def w(*x, **k):
         return ('mdeco', f(*x, **k))
     return w
+def hookdeco(f):
+    def w(*x, **k):
+        log('hookdeco', len(x))
+        return f(*x, **k)
+    return w
 G = 50
 """
 
@@ -69,6 +74,11 @@ MEMBERS = {
     "super2": (["def m(self, v):", "    return ('K.m2', super(K, self).m(v))"], ["K().m(a)", "Sub().m(b)"]),
     "super_cm": (["@classmethod", "def cm(cls, v):", "    return ('K.cm', super().cm(v))"], ["K.cm(a)", "Sub.cm(b)"]),
     "init_subclass": (["def __init_subclass__(cls, flavour=None, **kw):", "    super().__init_subclass__(**kw)", "    cls.flavour = flavour"], ["mksub(K, 'S2', flavour=a).flavour"]),
+    "super_in_nested_function": (["def m(self, v):", "    def inner():", "        return super(K, self).m(v)", "    def inner2(s):", "        return super().m(v)", "    return ('K.nested', inner(), inner2(self), (lambda: __class__.__name__)())"], ["K().m(a)", "Sub().m(b)"]),
+    "init_subclass_decorated": (["@hookdeco", "def __init_subclass__(cls, **kw):", "    super().__init_subclass__(**kw)", "    cls.hooked = sorted(kw)"], ["Sub.hooked", "mksub(K, 'S3').hooked"]),
+    "classmethod_decorated": (["@classmethod", "@hookdeco", "def cmd(cls, v):", "    return (cls.__name__, v)"], ["K.cmd(a)", "Sub.cmd(b)"]),
+    "staticmethod_decorated": (["@staticmethod", "@hookdeco", "def smd(v):", "    return v + 1"], ["K.smd(a)", "Sub().smd(b)"]),
+    "property_decorated_getter": (["@property", "@hookdeco", "def pd(self):", "    return a"], ["K().pd"]),
     "method_default_classvar": (["dv = a", "def md(self, p=dv):", "    return p"], ["K().md()", "K().md(b)"]),
     "method_names_class": (["def who(self):", "    return K.__name__", "def mk(self):", "    return type(self)()"], ["K().who()", "type(Sub().mk()).__name__"]),
     "mdeco": (["@mdeco", "def dm(self, v):", "    return v * 2"], ["K().dm(a)"]),
@@ -77,7 +87,7 @@ MEMBERS = {
     "closure_method": (["def outerm(self):", "    t = a", "    def inner():", "        nonlocal t", "        t += b", "        return t", "    return inner()"], ["K().outerm()"]),
     "docstring": (["'''doc'''", "dz = a"], ["K.dz"]),
 }
-NEED_BASE_M = {"super0", "super2", "super_cm"}
+NEED_BASE_M = {"super0", "super2", "super_cm", "super_in_nested_function"}
 DEFAULT_HEADER = ("one", "none", "none", "0", "module")
 
 
@@ -160,7 +170,7 @@ def fix_members(header, ms):
     for m in ms:
         if m in NEED_BASE_M and header[0] in ("none", "is"):
             continue  # needs a base defining m / cm
-        if m in ("super0", "super2"):
+        if m in ("super0", "super2", "super_in_nested_function"):
             if have_m:
                 continue
             have_m = True
